@@ -128,6 +128,8 @@ STRUCT = {
     'child-on-tail-then-later-removal': ["A\n", O('m', RX + ' unwrap-block'), "\n{\n  k;\n} ", O('t', RT), "c", C('t'), "\n", C('m'), "\nf() {\n", H(2, 'ind'), "  one();\n", H(2, 'ind'), "    two();\n}\n",
                                          O('t', RT), "\nz\n", C('t'), "\nB\n"],
     'inline-child-in-head-wrapper': ["A\n", O('t', RT + ' unwrap-block'), "\nif ", O('m', RX), "c", C('m'), " {\n", H(2, 'ws'), "k\n}\n", C('t'), H(2, 'ws'), "B"],
+    'unwrap-end-tag-line-has-inner-element': ["A\n", O('m', RX + ' unwrap-block'), "\nif {\n", H(1, 'ind'), "k;\n}\n", O('t', RT), H(1, 'sp'), "x", C('t'), H(1, 'sp'), C('m'), "\nB", H(1)],
+    'unwrap-start-tag-line-has-inner-element': ["A\n", O('m', RX + ' unwrap-block'), H(1, 'sp'), O('t', RT), "x", C('t'), "\nif {\n", H(1, 'ind'), "k;\n}\n", C('m'), "\nB", H(1)],
     'unwrap-ragged': ["A\n", H(1, 'ind'), O('m', RX + ' unwrap-block'), "\n{\n    ", H(1, 'nb'), "a;\n  ", H(2, 'nb'), "b;\n", H(2, 'nb'), "c;\n", H(1, 'ind'), H(1, 'nb'), "d;\n}\n", C('m'), "\nB\n"],
     'unwrap-empty-line-between': [H(1), "A\n", O('m', RX + ' unwrap-block'), H(1, 'ind'), "\n", H(2, 'ind'), "\n", H(1, 'ind'), C('m'), "\nB", H(1)],
     'unwrap-adjacent-lines': [H(1), "A ", O('m', RX + ' unwrap-block'), H(1, 'ind'), "\n", H(1, 'ind'), C('m'), " B", H(1)],
@@ -811,4 +813,109 @@ def c13_jobs(tier, seed):
         J(f'nested ready block b={b} a={a}', a=a, b=b, inner=1, holes=dict(tag_i=1, in_i=2, cin_i=1))
         J(f'pending parent b={b} a={a}', a=a, b=b, parent=1, holes=dict(tag_i=2, a_i=2, z_i=1))
         J(f'no final newline b={b} a={a}', a=a, b=b, final_nl=0, holes=dict(z_t=2, z_i=1, al0=1 if a else 0))
+    return jobs
+
+
+# ---------------------------------------------------------------- C19 idempotence and composition over time
+def equal_mod_blanks(a, b):
+    """a and b are equal after deleting blanks (' ', tab, line break) from both: bool | z3 Bool (dynamic programming)"""
+    n, m = len(a), len(b)
+    ba = [is_blank(x) for x in a]
+    bb = [is_blank(x) for x in b]
+    prev = [False] * (m + 1)
+    prev[0] = True
+    for j in range(1, m + 1):
+        prev[j] = b_and([prev[j - 1], bb[j - 1]])
+    for i in range(1, n + 1):
+        cur = [False] * (m + 1)
+        cur[0] = b_and([prev[0], ba[i - 1]])
+        for j in range(1, m + 1):
+            alts = []
+            if prev[j] is not False and ba[i - 1] is not False:
+                alts.append(b_and([prev[j], ba[i - 1]]))
+            if cur[j - 1] is not False and bb[j - 1] is not False:
+                alts.append(b_and([cur[j - 1], bb[j - 1]]))
+            if prev[j - 1] is not False:
+                eq = same(a[i - 1], b[j - 1])
+                if eq is not False:
+                    alts.append(b_and([prev[j - 1], eq]))
+            cur[j] = b_or(alts)
+        prev = cur
+    return prev[m]
+
+
+E1, E2, E3 = "to='2001-01-01 00:00:00'", "to='2010-01-01 00:00:00'", "to='2999-01-01 00:00:00'"
+TIMES = {'t0': 946684800, 't1': 1104537600, 't2': 1420070400}  # 2000, 2005, 2015
+
+HIST = {
+    'siblings': ["A\n", H(1, 'ws'), O('t', E1), "\none\n", C('t'), "\n", H(2, 'ws'), O('t', E2), "\ntwo\n", C('t'), "\n", H(1, 'ws'), "B\n"],
+    'nested-inner-first': ["A\n", O('t', E2), "\n", H(1, 'ind'), "p\n", H(1, 'ind'), O('t', E1), "\nq\n", C('t'), "\n", H(2, 'ws'), "r\n", C('t'), "\nB", H(1, 'ws')],
+    'nested-outer-first': ["A\n", O('t', E1), "\np\n", O('t', E2), "\nq\n", C('t'), H(2, 'ws'), "\n", C('t'), "\nB\n"],
+    'unwrap-inner-shorter': ["A\n", O('t', E2 + ' unwrap-block'), "\n{\n", H(1, 'ind'), "k;\n", H(1, 'ind'), O('t', E1), "\nold;\n", C('t'), "\n", H(1, 'ws'), "}\n", C('t'), "\nB\n"],
+    'unwrap-body-emptied': ["A\n", O('t', E2 + ' unwrap-block'), "\n{\n", O('t', E1), "\nold;\n", C('t'), "\n}\n", C('t'), H(2, 'ws'), "B\n"],
+    'unwrap-short-body-with-ready-child': ["A\n", O('t', E2 + ' unwrap-block'), "\n", H(1, 'ind'), O('t', E1), "old();", C('t'), "\n", C('t'), "\nB", H(1, 'ws')],
+    'unwrap-end-tag-shares-line': ["A\n", O('t', E2 + ' unwrap-block'), "\n{\n", H(1, 'ind'), "k;\n} ", O('t', E1), "x", C('t'), H(1, 'sp'), C('t'), "\nB\n"],
+    'unwrap-end-tag-line-has-inner-element': ["A\n", O('t', E2 + ' unwrap-block'), "\nif {\n", H(1, 'ind'), "k;\n}\n", O('t', E1), H(1, 'sp'), "x", C('t'), H(1, 'sp'), C('t'), "\nB\n"],
+    'unwrap-start-tag-line-has-inner-element': ["A\n", O('t', E2 + ' unwrap-block'), H(1, 'sp'), O('t', E1), "x", C('t'), "\nif {\n", H(1, 'ind'), "k;\n}\n", C('t'), "\nB\n"],
+    'unwrap-start-tag-shares-line': ["A\n", O('t', E1), "x", C('t'), H(1, 'sp'), O('t', E2 + ' unwrap-block'), "\n{\n", H(1, 'ind'), "k;\n}\n", C('t'), "\nB\n"],
+    'markers-chain': ["A\n", O('m', "name='x'"), "\none\n", C('m'), "\n", H(2, 'ws'), O('m', "name='y'"), "\ntwo", H(1), "\n", C('m'), "\n", O('m', "name='z'"), "\nthree\n", C('m'), "\nB\n"],
+    'marker-in-time': ["A", H(1, 'ws'), O('t', E2), H(1, 'ws'), O('m', "name='x'"), "q", C('m'), H(1, 'ws'), "r", C('t'), H(1, 'ws'), "B"],
+    'inline-mix': [H(1), O('t', E1), "a", C('t'), H(2, 'ws'), O('t', E2), "b", C('t'), H(1)],
+    'pending-forever': ["A\n", O('t', E3), "\n", H(2, 'ws'), O('t', E1), "\nq\n", C('t'), "\n", H(1, 'ws'), C('t'), "\nB\n"],
+}
+CHAINS = [  # (first configuration, second configuration): time non-decreasing, target sets growing
+    (('t0', []), ('t1', [])), (('t1', []), ('t2', [])), (('t0', []), ('t2', [])), (('t1', []), ('t1', ['x'])), (('t0', ['x']), ('t2', ['x', 'y'])),
+    (('t2', []), ('t2', ['x', 'y'])), (('t1', ['x']), ('t2', ['x'])),
+]
+
+
+def hist_cfg(c):
+    return base_cfg(now=TIMES[c[0]], targets=[list(t.encode()) for t in c[1]])
+
+
+@harness('c19_history', covers=['first-run-removes-something', 'second-run-removes-more', 'unwrap-after-earlier-removal'])
+def c19_history(ctx, p):
+    ds, de = [60], [62]
+    src, parts = render(ctx, p['tpl'], ds, de)
+    steps = [hist_cfg(c) for c in p['chain']]
+    final = steps[-1]
+    ready_first, _, _ = evaluate(src, parts, steps[0])
+    ready_final, _, _ = evaluate(src, parts, final)
+    if ready_first:
+        ctx.cover('first-run-removes-something')
+    if len(ready_final) > len(ready_first):
+        ctx.cover('second-run-removes-more')
+        if any(e['unwrap'] for e in ready_final if e not in ready_first) and ready_first:
+            ctx.cover('unwrap-after-earlier-removal')
+    cur = src
+    for c in steps:
+        cur = ctx.impl.clean(cur, ds, de, c)
+    once = ctx.impl.clean(src, ds, de, final)
+    ctx.check(equal_mod_blanks(cur, once), f'cleaning step by step {[x[0] for x in p["chain"]]} and cleaning once with the final configuration differ in non-blank text',
+              'stepwise-differs-from-once')
+    again = ctx.impl.clean(once, ds, de, final)
+    ctx.check(len(again) == len(once) and b_and(same(x, y) for x, y in zip(again, once)), 'cleaning the output again with the same configuration changes it',
+              'not-idempotent')
+    again2 = ctx.impl.clean(cur, ds, de, final)
+    ctx.check(len(again2) == len(cur) and b_and(same(x, y) for x, y in zip(again2, cur)), 'cleaning the step-by-step result again changes it', 'not-idempotent')
+
+
+def c19_jobs(tier, seed):
+    rnd = random.Random(seed + 19)
+    jobs = []
+    budget = 3 if tier == 'quick' else 5
+    chains = list(CHAINS)
+    if tier != 'quick':
+        chains += [(('t0', []), ('t1', []), ('t2', [])), (('t0', []), ('t1', ['x']), ('t2', ['x', 'y'])), (('t0', []), ('t1', []), ('t1', ['x']), ('t2', ['x', 'y', 'z']))]
+    for name, tpl in HIST.items():
+        vs = variants(tpl, budget, 2 if tier == 'quick' else 3, rnd, 2 if tier == 'quick' else 10)
+        for sizes in vs:
+            for ch in chains:
+                uses_markers = 'marker' in name
+                if not uses_markers and any(c[1] for c in ch) and tier == 'quick':
+                    continue
+                if uses_markers and not any(c[1] for c in ch):
+                    continue
+                jobs.append(dict(harness='c19_history', label=f'{name} holes={sizes} chain={"→".join(c[0] + str(c[1]) for c in ch)}',
+                                 params=dict(tpl=instantiate(tpl, sizes), chain=[list(c) for c in ch])))
     return jobs
